@@ -82,7 +82,7 @@ class Discharger:
         for q, fi in self.m.funcs.items():
             for nd in walk_own(fi.node):
                 if not (isinstance(nd, ast.Subscript) and
-                        isinstance(nd.ctx, ast.Load) and
+                        isinstance(nd.ctx, (ast.Load, ast.Del)) and
                         isinstance(nd.slice, ast.Name)):
                     continue
                 base = unparse(nd.value)
@@ -102,8 +102,21 @@ class Discharger:
                         gens = [(g.target, g.iter, []) for g in p.generators]
                     for tgt, it, body in gens:
                         names = [tgt.id] if isinstance(tgt, ast.Name) else []
-                        if k in names and unparse(it) in forms:
+                        itx = unparse(it)
+                        if isinstance(tgt, ast.Tuple) and tgt.elts and \
+                                isinstance(tgt.elts[0], ast.Name) and \
+                                itx in (base + '.items()',
+                                        'list(%s.items())' % base,
+                                        'tuple(%s.items())' % base,
+                                        'sorted(%s.items())' % base):
+                            names = [tgt.elts[0].id]
+                            itx = base
+                        if k in names and itx in forms:
                             txt = ' '.join(unparse(b) for b in body)
+                            # removing the current key itself from a
+                            # snapshot iteration is fine (once)
+                            txt = txt.replace('del %s[%s]' % (base, k), '') \
+                                .replace('%s.pop(%s)' % (base, k), '')
                             removed = any(
                                 ('%s.%s(' % (base, m_)) in txt
                                 for m_ in ('pop', 'popitem', 'clear')) or \
@@ -145,7 +158,8 @@ class Discharger:
                 if op.kind == 'call' and \
                         (id(op.node), op.exc) in self.R.handled_ops:
                     continue
-                if op.kind == 'subscript' and id(op.node) in self.iter_keys:
+                if op.kind in ('subscript', 'del-subscript') and \
+                        id(op.node) in self.iter_keys:
                     why = (True, self.iter_keys[id(op.node)])
                 elif op.kind == 'subscript':
                     if paths is None:
@@ -220,6 +234,8 @@ class Discharger:
                 txt = unparse(nd.test)
                 why = None
                 ex = ASSERT_EXEMPT.get((q, txt))
+                if ex is None:
+                    ex = self._assert_by_meaning(fi, nd)
                 if ex is not None:
                     why = ex
                 elif self._assert_dead(fi, nd):
@@ -232,6 +248,58 @@ class Discharger:
                     self.reasons[id(nd)] = why
                 else:
                     self.assert_open[id(nd)] = (fi, nd, txt)
+
+    def _assert_by_meaning(self, fi, nd):
+        """The named exemptions above, recognised by what the assertion
+        says rather than by its spelling."""
+        test = nd.test
+        # (a) the documented type of an argument: only isinstance(P, ...) and
+        # `P is None` over parameters of the function
+        params = set(fi.params) | set(fi.kwonly)
+
+        def type_only(e):
+            if isinstance(e, ast.BoolOp):
+                return all(type_only(v) for v in e.values)
+            if isinstance(e, ast.UnaryOp) and isinstance(e.op, ast.Not):
+                return type_only(e.operand)
+            if isinstance(e, ast.Call) and isinstance(e.func, ast.Name) and \
+                    e.func.id == 'isinstance' and e.args and \
+                    isinstance(e.args[0], ast.Name) and \
+                    e.args[0].id in params:
+                return True
+            if isinstance(e, ast.Compare) and len(e.ops) == 1 and \
+                    isinstance(e.ops[0], (ast.Is, ast.IsNot)) and \
+                    isinstance(e.left, ast.Name) and e.left.id in params \
+                    and isinstance(e.comparators[0], ast.Constant) and \
+                    e.comparators[0].value is None:
+                return True
+            return False
+        if type_only(test) and any(isinstance(n, ast.Call)
+                                   for n in ast.walk(test)):
+            return ('states the documented type of an argument (arguments '
+                    'are assumed well-typed)')
+        # (b) send_data: the window after the decrement is not negative
+        if fi.name == 'send_data' and isinstance(test, ast.Compare) and \
+                len(test.ops) == 1:
+            lhs, rhs, op = test.left, test.comparators[0], test.ops[0]
+            if isinstance(op, (ast.LtE, ast.Lt)):
+                lhs, rhs = rhs, lhs
+                op = ast.GtE() if isinstance(op, ast.LtE) else ast.Gt()
+            if isinstance(op, ast.GtE) and isinstance(rhs, ast.Constant) \
+                    and rhs.value == 0:
+                txt = unparse(lhs)
+                if isinstance(lhs, ast.Name):
+                    # a local holding the new window
+                    for n in walk_own(fi.node):
+                        if isinstance(n, ast.Assign) and any(
+                                isinstance(t, ast.Name) and t.id == lhs.id
+                                for t in n.targets):
+                            txt = unparse(n.value)
+                if 'outbound_flow_control_window' in txt:
+                    return ('the window after the decrement: implied by the '
+                            'guard amount <= min(windows) of '
+                            'H2Connection.send_data (rule C03 ARITH.assert)')
+        return None
 
     def _assert_dead(self, fi, nd):
         """assert directly after a call that never returns."""
@@ -374,7 +442,10 @@ class Discharger:
     def _dictish(self, e, fi):
         n = e.node
         if isinstance(n, ast.Subscript):
-            kinds = {a[0] for a in self.r.type_of(n.value, fi)}
+            atoms = self.r.type_of(n.value, fi)
+            kinds = {a[0] for a in atoms}
+            if self.R.mapping_instance(atoms):
+                kinds.add('dict')
             return 'dict' in kinds and 'list' not in kinds
         return False
 
